@@ -4,23 +4,31 @@ import PycsepVerif.Proofs.ResultJson
 # C18 — evaluation results and regions survive serialisation
 
 Theorems about `Model/ResultJson.lean` (model of EvaluationResult.to_dict / from_dict, write_json with
-`json.dump(default=str)`, load_evaluation_result's class factory, CartesianGrid2D.to_dict / from_dict).
-"Equal after the round trip" is `norm`: tuples and arrays come back as lists, numpy.float64 as float; payloads
+`json.dump(default=_json_default)`, load_evaluation_result's class factory, CartesianGrid2D.to_dict / from_dict).
+"Equal after the round trip" is `norm`: tuples and arrays come back as lists, numpy scalars as the Python numbers
+they hold (numpy.int64(4) as 4, numpy.float64(x) as x); payloads
 (NaN, ±inf included), ints, strings, None and the nesting are unchanged.
 -/
 namespace ResultJson
 
-/-- C18: every value whose kinds lie in the safe set {int, bool, float, numpy.float64, str, None, lists / tuples /
-    arrays of these — any nesting depth, any length} is read back equal (structural induction). -/
+/-- C18: every value whose kinds lie in the safe set {int, bool, float, numpy integer / bool / floating scalars, str,
+    None, lists / tuples / arrays of these — any nesting depth, any length} is read back equal (structural induction):
+    numpy scalars as the numbers they hold, tuples as lists, NaN as NaN. -/
 theorem roundtrip_safe (v : PyVal) (h : Safe v) : roundTrip v = norm v := roundTrip_safe_aux v h
 
-/-- the safe-set hypothesis is necessary: numpy integers / booleans / other scalars come back as STRINGS
-    (`default=str`), which is not their normal form. -/
-theorem unsafe_kinds_do_not_roundtrip (n : Int) (b : Bool) (s : String) :
-    roundTrip (.npInt64 n) = .str (toString n) ∧ roundTrip (.npInt64 n) ≠ norm (.npInt64 n) ∧
-    roundTrip (.npBool b) = .str (boolStr b) ∧ roundTrip (.npBool b) ≠ norm (.npBool b) ∧
-    roundTrip (.other s) = .str s ∧ roundTrip (.other s) ≠ norm (.other s) := by
-  refine ⟨rfl, ?_, rfl, ?_, rfl, ?_⟩ <;> simp [roundTrip, toJson, fromJson, norm]
+/-- numpy scalars are written through `.item()` (repositories.py:107 `_json_default`): an integer scalar comes back as
+    the Python int it holds, a numpy bool as the bool, a float32/float16 as the float — equal as numbers. -/
+theorem numpy_scalars_roundtrip_as_numbers (n : Int) (b : Bool) (x : F64) :
+    roundTrip (.npInt64 n) = .pyInt n ∧ roundTrip (.npBool b) = .pyBool b ∧
+    roundTrip (.npFloat32 x) = .pyFloat x ∧ roundTrip (.npFloat64 x) = .pyFloat x :=
+  ⟨rfl, rfl, rfl, rfl⟩
+
+/-- what is still not preserved: an object json cannot encode and that is not a numpy scalar (an ndarray nested in a
+    field, a datetime, …) is written as `str(obj)` and comes back as that STRING — the safe-set hypothesis of
+    `roundtrip_safe` is necessary, and `other` is the only unsafe kind. -/
+theorem stringified_objects_do_not_roundtrip (s : String) :
+    roundTrip (.other s) = .str s ∧ roundTrip (.other s) ≠ norm (.other s) ∧ ¬ Safe (.other s) := by
+  refine ⟨rfl, ?_, ?_⟩ <;> simp [roundTrip, toJson, fromJson, norm, Safe]
 
 /-- the loaded value is already in normal form: a second round trip changes nothing -/
 theorem roundtrip_idempotent (v : PyVal) (h : Safe v) : norm (roundTrip v) = roundTrip v := by
@@ -107,6 +115,9 @@ example : Safe (.tuple (.cons (.npFloat64 .nan) (.cons (.list (.cons (.pyInt 3) 
   simp [Safe, SafeL]
 example : roundTrip (.tuple (.cons (.npFloat64 .nan) (.cons (.pyInt 3) .nil))) =
     .list (.cons (.pyFloat .nan) (.cons (.pyInt 3) .nil)) := rfl
+-- the former defect D29: min_mw = numpy.int64(4) of a forecast with integer magnitude edges now comes back as the int 4
+example : roundTrip (.npInt64 4) = .pyInt 4 ∧ roundTrip (.npInt64 4) = norm (.npInt64 4) :=
+  ⟨rfl, roundtrip_safe _ (by simp [Safe])⟩
 -- result_roundtrip's hypotheses are met by a number-test-like result
 example : ∃ r : Result, r.cls ∈ resultClasses ∧ tdList r.testDistribution = some (.list (.cons (.str "poisson") (.cons (.npFloat64 (.num 7)) .nil)))
     ∧ Safe r.testDistribution ∧ Safe r.quantile :=
